@@ -815,6 +815,48 @@ pub static ROWS: &[Row] = rows![
     },
     "Span::try_from(SignedDuration)" => |a| res(Span::try_from(a.du1())),
     "Span::try_from(Duration)" => |a| res(Span::try_from(a.udur())),
+    // ---- time zones from data: a real TZif file with one field pushed to (or just past) what
+    // its header allows; Ok zones are then queried, so an index accepted too eagerly shows up
+    "TimeZone::tzif(type index at the table end)" => |a| {
+        let Some(bytes) = a.zone(a.a.z1).bytes.clone() else { return "err".into() };
+        let mut b: Vec<u8> = (*bytes).clone();
+        let rd = |b: &[u8], o: usize| -> usize { b.get(o..o + 4).map_or(0, |x| u32::from_be_bytes([x[0], x[1], x[2], x[3]]) as usize) };
+        if b.len() < 44 {
+            return "err".into();
+        }
+        let (utc, std_, leap, time, typ, chr) = (rd(&b, 20), rd(&b, 24), rd(&b, 28), rd(&b, 32), rd(&b, 36), rd(&b, 40));
+        let second = a.sel() % 2 == 1 && b[4] >= b'2';
+        let (base, tsize, time, typ) = if second {
+            let h2 = 44 + time * 5 + typ * 6 + chr + leap * 8 + std_ + utc;
+            if b.len() < h2 + 44 {
+                return "err".into();
+            }
+            (h2 + 44, 8usize, rd(&b, h2 + 32), rd(&b, h2 + 36))
+        } else {
+            (44usize, 4usize, time, typ)
+        };
+        if time == 0 {
+            return "err".into();
+        }
+        let k = (a.big().unsigned_abs() % time as u128) as usize;
+        let pos = base + time * tsize + k;
+        if pos >= b.len() {
+            return "err".into();
+        }
+        b[pos] = (typ as i64 + (a.b(0) as i64).rem_euclid(3) - 1).clamp(0, 255) as u8;
+        match TimeZone::tzif("Verif/Mutated", &b) {
+            Err(_) => "err".into(),
+            Ok(tz) => {
+                let ts = a.ts1();
+                let o = tz.to_offset(ts);
+                let dt = tz.to_datetime(ts);
+                let amb = tz.to_ambiguous_timestamp(dt);
+                let next = tz.following(ts).next().map(|t| t.offset().seconds());
+                let prev = tz.preceding(ts).next().map(|t| t.offset().seconds());
+                format!("ok {} {dt} {:?} {next:?} {prev:?}", o.seconds(), amb.offset())
+            }
+        }
+    },
     // ---- text -> value (FromStr returns a Result like any other constructor): unit values up
     // to the limits of i64, where the unit conversions inside the parsers can overflow
     "SignedDuration::from_str(ISO hours)" => |a| res(format!("{}PT{}H", if a.n1() < 0 { "-" } else { "" }, a.n1().unsigned_abs()).parse::<SignedDuration>()),
